@@ -148,6 +148,11 @@ def main():
             run.sample({"segments": R.describe_segs(segs), "bytes": len(data)})
     R.run_agree_all(run, cases, meta, "wf", "well-formed file")
     spec_tie(run, spec_files)
+    # Model/FileParse.v parse_file (the two-sided inverse of ser_file, Props/C01_bytes.v) evaluated in Coq on the
+    # independent encoder's bytes and compared with the generator's syntax; single-fault mutants that still parse must
+    # re-serialise to themselves and read alike in model and implementation
+    import parse_tie
+    parse_tie.parse_tie(run, spec_files[:run.pick(200, 2500)])
     # malformed stream: accept/reject agreement, and equal content when both accept
     m = run.pick(200, 6000)
     cases, meta = [], []
